@@ -76,7 +76,8 @@ class VLoop(asyncio.SelectorEventLoop):
         self.idle = False
         self.t_end = None
         super().__init__(selector=FakeSelector(self))
-        self._clock_resolution = 2.0 ** -30
+        # half a tick: a timer is due iff its deadline (a multiple of TICK) is <= now, also beyond 2**24 s where now + 2**-30 == now
+        self._clock_resolution = TICK / 2
         self.errors = []
         self.set_exception_handler(lambda loop, ctx: self.errors.append(ctx))
 
